@@ -433,21 +433,8 @@ def run_cvc5(smt2_text, timeout_s=CVC5_TIMEOUT_S):
         os.unlink(path)
 
 
-def prove(hyps, qfacts, goal, extra_pool=(), timeout_ms=None, want_model=True,
-          both=False, quick=False, pool_limit=None):
-    """Decide  hyps /\\ qfacts |- goal.
-
-    Returns (verdict, backend, seconds, model|None, smt2).  verdict:
-      'unsat'   : discharged
-      'sat'     : refuted, with a model that satisfies every quantified
-                  hypothesis as far as z3 can tell (full quantifiers, MBQI)
-      'unknown' : undecided
-    Ground instantiation is tried first (fast path); a `sat` there is only a
-    candidate (instances may be missing) and is re-checked with the
-    quantified hypotheses handed to z3 as they are.
-    """
-    timeout_ms = timeout_ms or Z3_TIMEOUT_MS
-    t0 = time.time()
+def _ground_solve(hyps, qfacts, goal, extra_pool, timeout_ms, pool_limit, max_rounds):
+    """ground instantiation with `max_rounds` closure rounds, then one solver call"""
     neg = z3.Not(goal)
     base = list(hyps) + [neg]
     ground = []
@@ -479,17 +466,20 @@ def prove(hyps, qfacts, goal, extra_pool=(), timeout_ms=None, want_model=True,
         ground = _instantiate(qfacts, by_sort, trig_args=trig_args, skolems=sk)
         if slotN is not None:
             ground, _f = slot_rewrite(ground, slotN)
-        # one closure round: instances may mention new index terms
-        pool2 = _index_terms(ground, want=want)
-        grew = False
-        for t in pool2:
-            if pool_limit:
+        # closure rounds: instances may mention new index terms (e.g. Skolem
+        # witness functions applied to pool terms); bounded so queries stay small
+        for _round in range(max_rounds):
+            pool2 = _index_terms(ground, want=want)
+            grew = False
+            for t in pool2:
+                if pool_limit:
+                    break
+                if t.get_id() not in ids and len(ids) < (120 if _round == 0 else 150):
+                    ids.add(t.get_id())
+                    by_sort.setdefault(str(t.sort()), []).append(t)
+                    grew = True
+            if not grew:
                 break
-            if t.get_id() not in ids and len(ids) < 120:
-                ids.add(t.get_id())
-                by_sort.setdefault(str(t.sort()), []).append(t)
-                grew = True
-        if grew:
             if need_trig:
                 trig_args = _trigger_args(base + ground, need_trig)
             ground = _instantiate(qfacts, by_sort, trig_args=trig_args, skolems=sk)
@@ -508,6 +498,28 @@ def prove(hyps, qfacts, goal, extra_pool=(), timeout_ms=None, want_model=True,
         s.add(g)
     STATS.queries += 1
     r = s.check()
+    return r, s, base, ground
+
+
+def prove(hyps, qfacts, goal, extra_pool=(), timeout_ms=None, want_model=True,
+          both=False, quick=False, pool_limit=None):
+    """Decide  hyps /\\ qfacts |- goal.
+
+    Returns (verdict, backend, seconds, model|None, smt2).  verdict:
+      'unsat'   : discharged
+      'sat'     : refuted, with a model that satisfies every quantified
+                  hypothesis as far as z3 can tell (full quantifiers, MBQI)
+      'unknown' : undecided
+    Ground instantiation is tried first (fast path); a `sat` there is only a
+    candidate (instances may be missing) and is re-checked with the
+    quantified hypotheses handed to z3 as they are.
+    """
+    timeout_ms = timeout_ms or Z3_TIMEOUT_MS
+    t0 = time.time()
+    for max_rounds in ((1,) if (quick or pool_limit or not qfacts) else (1, 3)):
+        r, s, base, ground = _ground_solve(hyps, qfacts, goal, extra_pool, timeout_ms, pool_limit, max_rounds)
+        if r == z3.unsat:
+            break
     smt2 = None
     backend = "z3"
     if r == z3.unsat:
